@@ -199,6 +199,76 @@ def run(ctx):
 
     for s in pmap(one, cases, workers=8)[:8]:
         ctx.sample(s)
+    several_faulty_parts(ctx, home, quick)
+
+
+def several_faulty_parts(ctx, home, quick):
+    """packages in which several independently loaded parts (previous versions, imported packages, imports of previous versions) are each broken in
+    a different way: yardl stops at the first part that fails, and which one that is - hence the whole diagnostic text - must not vary between runs.
+    These runs are cheap (nothing is generated), so each package is run many times, alternating validate and generate."""
+    runs = 30 if quick else 120
+    faults = ["a: Missing%d", "a: 'int[x:2, y%d]'", "a: [int, int, string%d]", "a: !map {keys: Rec%d, values: int}", "Bad_%d: int", "a: Other%d<int>"]
+    good = "Rec: !record\n  fields:\n    a: int\nP: !protocol\n  sequence:\n    r: Rec\n"
+
+    def broken(j):
+        f = faults[j % len(faults)] % j
+        return "Rec: !record\n  fields:\n    a: int\nBroken%d: !record\n  fields:\n    %s\nP: !protocol\n  sequence:\n    r: Rec\n" % (j, f)
+    layouts = []
+    for nv in (2, 3, 4, 6):
+        layouts.append(("versions-%d" % nv, ["v%d" % j for j in range(nv)], [], []))
+    for ni in (2, 3, 5):
+        layouts.append(("imports-%d" % ni, [], ["lib%d" % j for j in range(ni)], []))
+    layouts.append(("versions-2-imports-2", ["v0", "v1"], ["lib0", "lib1"], []))
+    layouts.append(("imports-of-versions", ["v0", "v1", "v2"], [], ["v0", "v1", "v2"]))
+    if quick:
+        layouts = [l for l in layouts if l[0] in ("versions-2", "versions-4", "imports-3", "versions-2-imports-2", "imports-of-versions")]
+
+    def one(layout):
+        name, versions, imports, vimports = layout
+        base = os.path.join(ctx.workdir, "cases", "faulty_" + name)
+        shutil.rmtree(base, ignore_errors=True)
+        files = {"new/_package.yml": "namespace: Fp\n" + ("imports:\n" + "".join("  - ../%s\n" % l for l in imports) if imports else "") +
+                 ("versions:\n" + "".join("  %s: ../%s\n" % (v, v) for v in versions) if versions else "") + "json:\n  outputDir: ../out/json\n",
+                 "new/m.yml": good}
+        k = 0
+        for v in versions:
+            if v in vimports:
+                files["%s/_package.yml" % v] = "namespace: Fp\nimports:\n  - ../dep_%s\n" % v
+                files["%s/m.yml" % v] = good
+                files["dep_%s/_package.yml" % v] = "namespace: Dep\n"
+                files["dep_%s/m.yml" % v] = broken(k)
+            else:
+                files["%s/_package.yml" % v] = "namespace: Fp\n"
+                files["%s/m.yml" % v] = broken(k)
+            k += 1
+        for l in imports:
+            files["%s/_package.yml" % l] = "namespace: L%s\n" % l[3:]
+            files["%s/m.yml" % l] = broken(k)
+            k += 1
+        common.write_tree(base, files)
+        pkgdir = os.path.join(base, "new")
+        obs = []
+        for n in range(runs):
+            p = cli.run_cli("validate" if n % 2 else "generate", pkgdir, home)
+            ctx.ev()
+            if p.timed_out:
+                raise Inconclusive("watchdog")
+            obs.append((p.rc, p.stdout, p.stderr, os.path.exists(os.path.join(base, "out"))))
+        ctx.case(("several-faulty-parts", name))
+        ctx.count("kind.several-faulty-parts")
+        ctx.count("faulty-parts.runs", runs)
+        first = obs[0]
+        if first[0] != 1:
+            raise Inconclusive("faulty-parts package %s is not rejected: rc=%s %s" % (name, first[0], first[2][-300:]))
+        for n, o in enumerate(obs[1:], 1):
+            if o != first:
+                key = ["rc", "stdout", "stderr", "output-exists"][[a != b for a, b in zip(o, first)].index(True)]
+                ctx.violation("nondeterministic:several-faulty-parts:%s" % key, "package with %s broken in different ways: run %d differs from run 0 in %s: %s" % (
+                    name, n, key, diff_detail(first[2], o[2]) if key == "stderr" else (first[0], o[0])), {"case_dir": base, "run": n})
+                return
+        shutil.rmtree(base, ignore_errors=True)
+
+    pmap(one, layouts, workers=4)
 
 
 def diff_detail(a, b):
